@@ -80,7 +80,7 @@ def main():
             na.append({"property_id": pid, "reason": NA.get(pid, NOT_YET)})
     man = {
         "version": 1,
-        "setup_cmd": "/venv/bin/python tools/setup_check.py",
+        "setup_cmd": "/venv/bin/python tools/setup_check.py && /venv/bin/python tools/selftest.py",
         "hooks": {
             "guard": "SCORE_ANALYSIS_VERIF",
             "enable": "none needed: the checks import /repo's working tree directly and intercept the NumPy "
